@@ -401,7 +401,7 @@ impl Property for C12 {
     }
     fn runs(&self, tier: Tier) -> u64 {
         match tier {
-            Tier::Quick => 9_000,
+            Tier::Quick => 20_000,
             Tier::Thorough => 400_000,
         }
     }
